@@ -704,6 +704,29 @@ Theorem prefix_current : forall c f p q, c_fixed c = true -> events f = p ++ q -
   no_underflow (snd (run c st0 p)) = true.
 Proof. intros c f p q F E. apply (prefix_no_underflow c f p q); [now left|assumption]. Qed.
 
+(* The identity of a function is its name.  The callback computes the name from what the interpreter
+   hands over at every event (frame.f_code / the builtin object); the model has no other notion of
+   identity, in particular not the address of a code object, which CPython re-uses as soon as the
+   object is freed (functions made with compile()/exec(), modules imported and dropped).  Whatever
+   the table already holds, every event is processed under a symbol that carries exactly the name
+   computed for the function of that event. *)
+Definition called_names (md : option name) (evs : list fevent) : list (evkind * name) :=
+  flat_map (fun e => match sym_of_func md (fe_kind e) (fe_func e) with
+                     | Some sy => [(fe_kind e, s_name sy)]
+                     | None => []
+                     end) evs.
+
+Lemma sym_events_names : forall md evs tab,
+  map (fun e => (e_kind e, s_name (e_sym e))) (snd (sym_events md tab evs)) = called_names md evs.
+Proof.
+  intros md evs. induction evs as [|e evs IH]; intros tab; [reflexivity|].
+  cbn [sym_events called_names flat_map].
+  destruct (sym_of_func md (fe_kind e) (fe_func e)) as [sy|]; [|apply IH].
+  destruct (intern tab sy) as [[t1 a] sy'] eqn:I. apply intern_spec in I as (_ & Nm & _).
+  specialize (IH t1). destruct (sym_events md t1 evs) as [t2 es]. cbn [snd map app e_kind e_sym] in *.
+  rewrite Nm. f_equal. exact IH.
+Qed.
+
 (* ---------------------------------------------------------------- function level: the whole callback meets the specification *)
 (* the symbol a function gets when it is seen first *)
 Notation fsym := fsym_of.
